@@ -765,7 +765,8 @@ class Operation:
             num_splits = self.attrs.get("num_splits")
             axis_tens = self.inputs[0]
             assert len(axis_tens.ops) == 1 and axis_tens.ops[0].type == Op.Const
-            axis = int(axis_tens.values)
+            # (the axis is a scalar, also accepted as a tensor with one element; NumPy 2 no longer converts that implicitly)
+            axis = int(axis_tens.values.item())
             input_tens = self.inputs[1]
             outputs = self.outputs
             assert num_splits == len(outputs)
